@@ -337,6 +337,18 @@ def getitem(interp, obj, idx):
         i = norm_index(interp, idx, n)
         _, rest = ops.split_at(interp, obj.rope, i)
         one, _ = ops.split_at(interp, rest, 1)
+        if len(one) != 1 or isinstance(one[0], Blk):
+            # the one-element piece may still carry blocks of symbolic length that are empty on this path, or be a
+            # block of length one
+            one = ops.norm(one)
+            elems = [e for e in one if not isinstance(e, Blk)]
+            blks = [e for e in one if isinstance(e, Blk)]
+            if len(elems) == 1 and all(interp.ctx.valid(ops.elem_term(k.n) == 0) for k in blks):
+                one = elems
+            elif not elems and len(blks) == 1 and interp.ctx.valid(ops.elem_term(blks[0].n) == 1):
+                one = ops.refine_to_elements(interp.ctx, blks[0], 1)
+            else:
+                raise Unsupported("element access: could not isolate the element")
         return wrap_elem(one[0])
     if isinstance(obj, (PyList, PyDeque)) or isinstance(obj, tuple):
         items = obj if isinstance(obj, tuple) else obj.items
